@@ -128,7 +128,7 @@ Definition write_field (env : enum_env) (t : fty) : outcome fieldw :=
              | Some r => obind (write_int_rules k r) (fun c => Ok (only_ty c))
              end)
         (fun v => Ok (FW (int_pkind k) v (Some XInteger) (with_arm (int_larm k) l) None))
-  | TStr r l =>
+  | TStr _ r l =>              (* StringField.format is not looked at *)
       Ok (FW KdString
             (match r with None => None | Some r => only_ty (CStr (sr_min r) (sr_max r) (sr_pat r) false) end)
             (Some XString) (with_arm LStrOpenText l) None)
@@ -176,7 +176,7 @@ Definition write_field (env : enum_env) (t : fty) : outcome fieldw :=
   | TDecimal r l =>
       Ok (FW KdDecimal None (match r with Some r => Some (XDecimal (Some r)) | None => None end) (with_arm LDecimal l) None)
   | TTimestamp l => Ok (FW KdTimestamp None (Some XTimestamp) (with_arm LTimestamp l) None)
-  | TAny l => Ok (FW KdAny None (Some (XAny false [])) (with_arm LAny l) None)
+  | TAny od ts l => Ok (FW KdAny None (Some (XAny od ts)) (with_arm LAny l) None)
   | TObject fl => Ok (FW KdMsgObject None (Some (XObject fl)) None None)
   | TOneof l => Ok (FW KdMsgOneof None (Some XOneof) (with_arm LOneof l) None)
   end.
